@@ -14,7 +14,7 @@ class VSharpNetConfig(ModelConfig):
     num_steps_dc_gd: int = 8
     image_init: InitType = InitType.SENSE
     no_parameter_sharing: bool = True
-    auxiliary_steps: int = 0
+    auxiliary_steps: int = -1
     image_model_architecture: ModelName = ModelName.UNET
     initializer_channels: tuple[int, ...] = (32, 32, 64, 64)
     initializer_dilations: tuple[int, ...] = (1, 1, 2, 4)
